@@ -14,3 +14,4 @@ def check(A):
         S.upgrade_exit_state(A, fl, 'C12')
     R.config_rules(A, 'C12', which=('transports',))
     R.middleware_passthrough_rule(A, 'C12')
+    R.driver_environ_rule(A, 'C12')
